@@ -4,7 +4,10 @@ import (
 	"go/ast"
 	"strings"
 
+	"fmt"
+	"go/types"
 	"golang.org/x/tools/go/ssa"
+	"sort"
 )
 
 // R13a: no observable result of compile / code generation / rendering depends on map order.
@@ -82,4 +85,147 @@ func ruleR13b(c *Ctx) {
 		c.ok("R13b", "no-ambient-inputs", entries[0].Pos(), "no read of clock, environment or random source in the reachable functions")
 	}
 	c.floor("R13b", "functions scanned", 200, n)
+}
+
+// R13f: no message text contains a memory address. fmt prints the elements of a slice, array or map that are
+// pointers (to types without a String or Error method) as addresses, which differ from run to run: an error
+// built by formatting such a value with %v is a different text for every compilation of the same source.
+func ruleR13f(c *Ctx) {
+	var rels []string
+	for rel := range c.Pkgs {
+		rels = append(rels, rel)
+	}
+	sort.Strings(rels)
+	n, nbad := 0, 0
+	var addrElem func(t types.Type, depth int) bool
+	hasStringer := func(t types.Type) bool {
+		for _, m := range []string{"String", "Error", "Format", "GoString"} {
+			if obj, _, _ := types.LookupFieldOrMethod(t, true, nil, m); obj != nil {
+				if _, ok := obj.(*types.Func); ok {
+					return true
+				}
+			}
+		}
+		return false
+	}
+	addrElem = func(t types.Type, depth int) bool {
+		if depth > 3 {
+			return false
+		}
+		switch u := t.Underlying().(type) {
+		case *types.Slice:
+			return elemIsAddr(u.Elem(), hasStringer) || addrElem(u.Elem(), depth+1)
+		case *types.Array:
+			return elemIsAddr(u.Elem(), hasStringer) || addrElem(u.Elem(), depth+1)
+		case *types.Map:
+			return elemIsAddr(u.Elem(), hasStringer) || elemIsAddr(u.Key(), hasStringer) || addrElem(u.Elem(), depth+1)
+		}
+		return false
+	}
+	for _, rel := range rels {
+		p := c.Pkgs[rel]
+		info := p.TypesInfo
+		for _, fd := range c.allFuncDecls(rel) {
+			if strings.HasSuffix(c.Fset.Position(fd.Pos()).Filename, "_test.go") {
+				continue
+			}
+			ast.Inspect(fd.Body, func(x ast.Node) bool {
+				call, ok := x.(*ast.CallExpr)
+				if !ok {
+					return true
+				}
+				cal := calleeFunc(call, info)
+				isFmt := cal != nil && cal.Pkg() != nil && cal.Pkg().Path() == "fmt"
+				// the module's own printf-like raisers (errorf(format, args...))
+				var sig *types.Signature
+				if tv, ok := info.Types[call.Fun]; ok {
+					sig, _ = tv.Type.Underlying().(*types.Signature)
+				}
+				ownPrintf := sig != nil && sig.Variadic() && sig.Params().Len() >= 2 && strings.Contains(strings.ToLower(sig.Params().At(sig.Params().Len()-2).Name()), "format")
+				if !isFmt && !ownPrintf {
+					return true
+				}
+				n++
+				for _, a := range call.Args {
+					tv, ok := info.Types[a]
+					if !ok || tv.Type == nil || tv.Value != nil {
+						continue
+					}
+					if hasStringer(tv.Type) {
+						continue
+					}
+					if addrElem(tv.Type, 0) {
+						nbad++
+						c.bad("R13f", fmt.Sprintf("%s formats %s#%d", c.declKey(rel, fd), exprKey(a), nbad), a.Pos(),
+							"the value "+exprKey(a)+" (type "+types.TypeString(tv.Type, func(p *types.Package) string { return p.Name() })+") is formatted into a message: its elements are pointers without a String method, which fmt prints as addresses, so the text differs between runs")
+					}
+				}
+				return true
+			})
+		}
+	}
+	c.floor("R13f", "formatting calls examined", 60, n)
+}
+
+func elemIsAddr(t types.Type, hasStringer func(types.Type) bool) bool {
+	switch t.Underlying().(type) {
+	case *types.Pointer, *types.Chan, *types.Signature:
+		return !hasStringer(t)
+	}
+	if b, ok := t.Underlying().(*types.Basic); ok && b.Kind() == types.UnsafePointer {
+		return true
+	}
+	return false
+}
+
+// R13g: the bundle builder keeps its own collections. No method of Bundle stores a map or slice it was handed
+// by the caller into one of the bundle's fields (b.globals = globals): the bundle later writes into that
+// field (merging further globals), which would then write into the caller's map, so a second bundle built
+// from the same maps is compiled against different globals than the first.
+func ruleR13g(c *Ctx) {
+	p := c.pkg("")
+	if p == nil {
+		return
+	}
+	info := p.TypesInfo
+	nmeth, nbad := 0, 0
+	for _, fd := range c.allFuncDecls("") {
+		if fd.Recv == nil || recvTypeName(fd.Recv.List[0].Type) != "Bundle" || !fd.Name.IsExported() {
+			continue
+		}
+		nmeth++
+		params := map[types.Object]bool{}
+		for _, fl := range fd.Type.Params.List {
+			for _, nm := range fl.Names {
+				if o := info.Defs[nm]; o != nil {
+					switch o.Type().Underlying().(type) {
+					case *types.Map, *types.Slice:
+						params[o] = true
+					}
+				}
+			}
+		}
+		if len(params) == 0 {
+			continue
+		}
+		ast.Inspect(fd.Body, func(x ast.Node) bool {
+			as, ok := x.(*ast.AssignStmt)
+			if !ok || len(as.Lhs) != len(as.Rhs) {
+				return true
+			}
+			for i, l := range as.Lhs {
+				fv := fieldOf(l, info)
+				if fv == nil {
+					continue
+				}
+				if id, ok := ast.Unparen(as.Rhs[i]).(*ast.Ident); ok && params[info.Uses[id]] {
+					nbad++
+					c.bad("R13g", fmt.Sprintf("%s adopts %s#%d", c.declKey("", fd), id.Name, nbad), as.Pos(),
+						"the bundle keeps the caller's "+id.Name+" itself in "+exprKey(l)+" instead of copying its entries: later additions to the bundle are written into the caller's collection, so the next bundle built from it sees them")
+				}
+			}
+			return true
+		})
+	}
+	c.floor("R13g", "exported methods of Bundle examined", 8, nmeth)
 }
